@@ -808,6 +808,12 @@ fn cbor_rt<T: serde::Serialize + serde::de::DeserializeOwned>(v: &T) -> Result<T
     ciborium::de::from_reader(&s[..]).map_err(|e| e.to_string())
 }
 
+/// compact, not self-describing format (see `vbin.rs`): fields travel by position only
+fn vbin_rt<T: serde::Serialize + serde::de::DeserializeOwned>(v: &T) -> Result<T, String> {
+    let s = crate::vbin::to_vec(v).map_err(|e| e.to_string())?;
+    crate::vbin::from_slice(&s).map_err(|e| e.to_string())
+}
+
 fn fa_set_eq(a: &fasta::RecordSet, b: &fasta::RecordSet) -> Result<usize, String> {
     if a.len() != b.len() {
         return Err(format!("len {} vs {}", a.len(), b.len()));
@@ -868,14 +874,16 @@ pub fn c19(ctx: &Ctx, rep: &mut Report) {
                     let r = fasta::OwnedRecord { head: rb(&mut rng, 30), seq: rb(&mut rng, 60) };
                     json_rt(&r).and_then(|x| if x == r { Ok(()) } else { Err("json: owned record differs".into()) })
                         .and_then(|_| cbor_rt(&r).and_then(|x| if x == r { Ok(()) } else { Err("cbor: owned record differs".into()) }))
+                        .and_then(|_| vbin_rt(&r).map_err(|e| format!("compact: {}", e)).and_then(|x| if x == r { Ok(()) } else { Err("compact: owned record differs".into()) }))
                 }
                 Fmt::Fastq => {
                     let r = fastq::OwnedRecord { head: rb(&mut rng, 30), seq: rb(&mut rng, 60), qual: rb(&mut rng, 60) };
                     json_rt(&r).and_then(|x| if x == r { Ok(()) } else { Err("json: owned record differs".into()) })
                         .and_then(|_| cbor_rt(&r).and_then(|x| if x == r { Ok(()) } else { Err("cbor: owned record differs".into()) }))
+                        .and_then(|_| vbin_rt(&r).map_err(|e| format!("compact: {}", e)).and_then(|x| if x == r { Ok(()) } else { Err("compact: owned record differs".into()) }))
                 }
             };
-            rep.add("owned_records_roundtripped", 2);
+            rep.add("owned_records_roundtripped", 3);
             if let Err(m) = res {
                 rep.violation(&format!("{}-owned-record", fmt.name()), m, replay.clone());
             }
@@ -901,6 +909,7 @@ pub fn c19(ctx: &Ctx, rep: &mut Report) {
                     // the empty set
                     fa_set_eq(&set, &json_rt(&set)?)?;
                     fa_set_eq(&set, &cbor_rt(&set)?)?;
+                    fa_set_eq(&set, &vbin_rt(&set).map_err(|e| format!("compact: {}", e))?).map_err(|e| format!("compact: {}", e))?;
                     let mut max_before = 0;
                     while let Some(Ok(())) = rdr.read_record_set_exact(&mut set, exact) {
                         if set.len() < max_before {
@@ -912,7 +921,12 @@ pub fn c19(ctx: &Ctx, rep: &mut Report) {
                         fa_set_eq(&set, &a).map_err(|e| format!("json: {}", e))?;
                         let b = cbor_rt(&set)?;
                         fa_set_eq(&set, &b).map_err(|e| format!("cbor: {}", e))?;
-                        sets += 2;
+                        let c = vbin_rt(&set).map_err(|e| format!("compact: {}", e))?;
+                        fa_set_eq(&set, &c).map_err(|e| format!("compact: {}", e))?;
+                        // a clone of the set serialises like the set
+                        let d = vbin_rt(&set.clone()).map_err(|e| format!("compact(clone): {}", e))?;
+                        fa_set_eq(&set, &d).map_err(|e| format!("compact(clone): {}", e))?;
+                        sets += 3;
                     }
                 }
                 Fmt::Fastq => {
@@ -920,6 +934,7 @@ pub fn c19(ctx: &Ctx, rep: &mut Report) {
                     let mut set = fastq::RecordSet::default();
                     fq_set_eq(&set, &json_rt(&set)?)?;
                     fq_set_eq(&set, &cbor_rt(&set)?)?;
+                    fq_set_eq(&set, &vbin_rt(&set).map_err(|e| format!("compact: {}", e))?).map_err(|e| format!("compact: {}", e))?;
                     let mut max_before = 0;
                     while let Some(Ok(())) = rdr.read_record_set_exact(&mut set, exact) {
                         if set.len() < max_before {
@@ -931,7 +946,11 @@ pub fn c19(ctx: &Ctx, rep: &mut Report) {
                         fq_set_eq(&set, &a).map_err(|e| format!("json: {}", e))?;
                         let b = cbor_rt(&set)?;
                         fq_set_eq(&set, &b).map_err(|e| format!("cbor: {}", e))?;
-                        sets += 2;
+                        let c = vbin_rt(&set).map_err(|e| format!("compact: {}", e))?;
+                        fq_set_eq(&set, &c).map_err(|e| format!("compact: {}", e))?;
+                        let d = vbin_rt(&set.clone()).map_err(|e| format!("compact(clone): {}", e))?;
+                        fq_set_eq(&set, &d).map_err(|e| format!("compact(clone): {}", e))?;
+                        sets += 3;
                     }
                 }
             }
@@ -950,7 +969,7 @@ pub fn c19(ctx: &Ctx, rep: &mut Report) {
                     h.bytes(&bytes).u64(cap as u64).u64(exact.unwrap_or(0) as u64);
                     rep.nontrivial.insert(h.finish());
                     if rep.want_sample() && bytes.len() < 120 {
-                        rep.sample(json!({"format": fmt.name(), "input": show(&bytes), "capacity": cap, "sets_roundtripped": sets, "formats": ["json", "cbor"]}));
+                        rep.sample(json!({"format": fmt.name(), "input": show(&bytes), "capacity": cap, "sets_roundtripped": sets, "formats": ["json", "cbor", "compact (vbin, not self-describing)"]}));
                     }
                 }
             }
